@@ -753,6 +753,11 @@ class BuiltinsMixin(AccessMixin):
         if isinstance(obj, (Buf, View, SymBytes)):
             if name == "decode":
                 def dec(a, k, n, f):
+                    if isinstance(obj, Buf) and obj.cells is not None and all(isinstance(norm_int(c), int) for c in obj.cells):
+                        try:
+                            return bytes(norm_int(c) for c in obj.cells).decode(*a)
+                        except Exception as ex:
+                            raise PyRaise(Instance(I.bclasses["UnicodeDecodeError"], (str(ex),)), n, f.where(n))
                     s = SymStr(("decode", I.name_of(obj) if not isinstance(obj, View) else ("view", obj.root, obj.lo, obj.hi)))
                     s.of_bytes = obj
                     return s
